@@ -454,73 +454,253 @@ type recSlot struct {
 	val     ssa.Value
 	instr   ssa.Instruction
 	valDesc string
+	orig    ssa.Value // the value in the assembling function (val is mapped to the writer method)
+	foreign bool      // computed inside the helper: not expressible in the writer method
 }
 
-// appendChain extracts the ordered slots of a record assembled with append(record, getbytes.FromX(v)...).
-func appendChain(fn *ssa.Function) (slots []recSlot, capHint ssa.Value, final ssa.Value, problems []string) {
-	sizes := types.SizesFor("gc", "amd64")
-	var mk *ssa.MakeSlice
-	Instrs(fn, func(in ssa.Instruction) {
-		if m, ok := in.(*ssa.MakeSlice); ok {
-			if b, ok := m.Type().Underlying().(*types.Slice).Elem().Underlying().(*types.Basic); ok && b.Kind() == types.Uint8 {
-				mk = m
-			}
-		}
-	})
-	if mk == nil {
-		return nil, nil, nil, []string{"no byte buffer is made for the record"}
+// recLayout is the byte layout of one record as the code assembles it.
+type recLayout struct {
+	host     *ssa.Function     // the function that assembles the buffer (the writer method or a helper)
+	path     []ssa.Instruction // call path from the writer method into host
+	slots    []recSlot
+	sizeHint ssa.Value // capacity (append form) or length (copy form) given to make, a value of host
+	final    ssa.Value // the completely assembled buffer, a value of the writer method
+	problems []string
+	unknown  string // non-empty: the assembly form is not one the extractor understands
+}
+
+func slotFromView(src *ssa.Call, sizes types.Sizes) (recSlot, bool) {
+	callee := src.Call.StaticCallee()
+	if callee == nil || !strings.HasSuffix(fnPkg(callee).Path(), "/getbytes") || len(src.Call.Args) != 1 {
+		return recSlot{}, false
 	}
-	capHint = mk.Cap
-	cur := ssa.Value(mk)
-	for {
-		var next *ssa.Call
-		n := 0
-		for _, ref := range *cur.Referrers() {
-			if c, ok := ref.(*ssa.Call); ok {
-				if b, ok := c.Call.Value.(*ssa.Builtin); ok && b.Name() == "append" && c.Call.Args[0] == cur {
-					next = c
+	pt := callee.Signature.Params().At(0).Type()
+	s := recSlot{val: src.Call.Args[0]}
+	if sl, ok := pt.Underlying().(*types.Slice); ok {
+		s.varlen = true
+		s.elem = int(sizes.Sizeof(sl.Elem()))
+		if b, ok := sl.Elem().Underlying().(*types.Basic); ok && b.Info()&types.IsFloat != 0 {
+			s.float = true
+		}
+	} else {
+		s.size = int(sizes.Sizeof(pt))
+		if b, ok := pt.Underlying().(*types.Basic); ok && b.Info()&types.IsFloat != 0 {
+			s.float = true
+		}
+	}
+	return s, true
+}
+
+// recordLayout extracts the ordered parts of a record from the writer method fn.  Forms understood:
+// (1) make([]byte, 0, n) followed by a chain of append(record, getbytes.FromX(v)...);
+// (2) make([]byte, n) filled by copy(record[a:b], getbytes.FromX(v)) at constant offsets;
+// either of them in fn itself or in a module helper whose result fn hands to the file writer.
+func recordLayout(fn *ssa.Function) *recLayout {
+	sizes := types.SizesFor("gc", "amd64")
+	byteMake := func(f *ssa.Function) (mk *ssa.MakeSlice, n int) {
+		Instrs(f, func(in ssa.Instruction) {
+			if m, ok := in.(*ssa.MakeSlice); ok {
+				if b, ok := m.Type().Underlying().(*types.Slice).Elem().Underlying().(*types.Basic); ok && b.Kind() == types.Uint8 {
+					mk = m
 					n++
 				}
 			}
-		}
-		if n == 0 {
-			break
-		}
-		if n > 1 {
-			problems = append(problems, "the record buffer forks (two appends of the same prefix)")
-			break
-		}
-		src, ok := next.Call.Args[1].(*ssa.Call)
-		if !ok || src.Call.StaticCallee() == nil || !strings.HasSuffix(fnPkg(src.Call.StaticCallee()).Path(), "/getbytes") {
-			problems = append(problems, "a record part is not a getbytes view")
-			break
-		}
-		callee := src.Call.StaticCallee()
-		pt := callee.Signature.Params().At(0).Type()
-		s := recSlot{val: src.Call.Args[0], instr: next}
-		if sl, ok := pt.Underlying().(*types.Slice); ok {
-			s.varlen = true
-			s.elem = int(sizes.Sizeof(sl.Elem()))
-			if b, ok := sl.Elem().Underlying().(*types.Basic); ok && b.Info()&types.IsFloat != 0 {
-				s.float = true
-			}
-		} else {
-			s.size = int(sizes.Sizeof(pt))
-			if b, ok := pt.Underlying().(*types.Basic); ok && b.Info()&types.IsFloat != 0 {
-				s.float = true
-			}
-		}
-		if len(slots) > 0 && !InstrDominates(slots[len(slots)-1].instr, next) {
-			problems = append(problems, "record parts are not appended on every path in one order")
-		}
-		if InLoop(next) {
-			problems = append(problems, "a record part is appended in a loop")
-		}
-		slots = append(slots, s)
-		cur = next
+		})
+		return
 	}
-	final = cur
-	return
+	L := &recLayout{host: fn}
+	mk, _ := byteMake(fn)
+	var helperCall *ssa.Call
+	if mk == nil {
+		// a helper returning the record
+		Instrs(fn, func(in ssa.Instruction) {
+			c, ok := in.(*ssa.Call)
+			if !ok || !isModuleFn(c.Call.StaticCallee()) {
+				return
+			}
+			if sl, ok := c.Type().Underlying().(*types.Slice); !ok || !types.Identical(sl.Elem(), types.Typ[types.Uint8]) {
+				return
+			}
+			if m, _ := byteMake(c.Call.StaticCallee()); m != nil {
+				helperCall = c
+				mk = m
+			}
+		})
+		if helperCall != nil {
+			L.host = helperCall.Call.StaticCallee()
+			L.path = []ssa.Instruction{helperCall}
+		}
+	}
+	if mk == nil {
+		L.unknown = "no byte buffer is made for the record in " + FuncName(fn) + " or a helper it calls"
+		return L
+	}
+	var last ssa.Value
+	if c, ok := mk.Len.(*ssa.Const); ok && c.Int64() == 0 {
+		// form 1
+		L.sizeHint = mk.Cap
+		cur := ssa.Value(mk)
+		for {
+			var next *ssa.Call
+			n := 0
+			for _, ref := range *cur.Referrers() {
+				if c, ok := ref.(*ssa.Call); ok {
+					if b, ok := c.Call.Value.(*ssa.Builtin); ok && b.Name() == "append" && c.Call.Args[0] == cur {
+						next = c
+						n++
+					}
+				}
+			}
+			if n == 0 {
+				break
+			}
+			if n > 1 {
+				L.problems = append(L.problems, "the record buffer forks (two appends of the same prefix)")
+				break
+			}
+			src, ok := next.Call.Args[1].(*ssa.Call)
+			var s recSlot
+			if ok {
+				s, ok = slotFromView(src, sizes)
+			}
+			if !ok {
+				L.unknown = "a record part is appended from something other than a getbytes view"
+				break
+			}
+			s.instr = next
+			if len(L.slots) > 0 && !InstrDominates(L.slots[len(L.slots)-1].instr, next) {
+				L.problems = append(L.problems, "record parts are not appended on every path in one order")
+			}
+			if InLoop(next) {
+				L.problems = append(L.problems, "a record part is appended in a loop")
+			}
+			L.slots = append(L.slots, s)
+			cur = next
+		}
+		last = cur
+	} else {
+		// form 2: copies into constant windows of the buffer
+		L.sizeHint = mk.Len
+		type win struct {
+			lo, hi int64
+			open   bool
+			s      recSlot
+		}
+		var wins []win
+		for _, ref := range *mk.Referrers() {
+			sl, ok := ref.(*ssa.Slice)
+			if !ok {
+				continue
+			}
+			w := win{}
+			if sl.Low != nil {
+				lo, ok := constInt(sl.Low)
+				if !ok {
+					L.unknown = "a record part is copied to a computed offset"
+					continue
+				}
+				w.lo = lo
+			}
+			if sl.High != nil {
+				hi, ok := constInt(sl.High)
+				if !ok {
+					L.unknown = "a record part is copied to a window with a computed end"
+					continue
+				}
+				w.hi = hi
+			} else {
+				w.open = true
+			}
+			n := 0
+			for _, r2 := range *sl.Referrers() {
+				c, ok := r2.(*ssa.Call)
+				if !ok {
+					continue
+				}
+				if b, ok := c.Call.Value.(*ssa.Builtin); !ok || b.Name() != "copy" || c.Call.Args[0] != ssa.Value(sl) {
+					continue
+				}
+				src, ok := c.Call.Args[1].(*ssa.Call)
+				var s recSlot
+				if ok {
+					s, ok = slotFromView(src, sizes)
+				}
+				if !ok {
+					L.unknown = "a record part is copied from something other than a getbytes view"
+					continue
+				}
+				s.instr = c
+				w.s = s
+				n++
+				if InLoop(c) {
+					L.problems = append(L.problems, "a record part is copied in a loop")
+				}
+			}
+			if n == 1 {
+				wins = append(wins, w)
+			} else if n > 1 {
+				L.problems = append(L.problems, "one window of the record is filled twice")
+			}
+		}
+		sort.Slice(wins, func(i, j int) bool { return wins[i].lo < wins[j].lo })
+		at := int64(0)
+		for i, w := range wins {
+			if w.lo != at {
+				L.problems = append(L.problems, fmt.Sprintf("record part %d is copied to offset %d, the parts before it end at %d (gap or overlap)", i+1, w.lo, at))
+			}
+			if w.open {
+				if !w.s.varlen && i != len(wins)-1 {
+					L.problems = append(L.problems, fmt.Sprintf("record part %d has an open-ended window but is not the last part", i+1))
+				}
+				at += int64(w.s.size)
+			} else {
+				if w.s.varlen || w.hi-w.lo != int64(w.s.size) {
+					L.problems = append(L.problems, fmt.Sprintf("record part %d: window of %d bytes filled from a view of %d bytes", i+1, w.hi-w.lo, w.s.size))
+				}
+				at = w.hi
+			}
+			L.slots = append(L.slots, w.s)
+		}
+		last = mk
+		if len(wins) == 0 && L.unknown == "" {
+			L.unknown = "the record buffer is filled in a way other than append or copy of getbytes views"
+		}
+	}
+	// the buffer as the writer method sees it
+	if helperCall != nil {
+		returnsIt := false
+		Instrs(L.host, func(in ssa.Instruction) {
+			if ret, ok := in.(*ssa.Return); ok {
+				returnsIt = len(ret.Results) > 0 && ret.Results[0] == last
+				// every part is in place before the return
+				for _, s := range L.slots {
+					if s.instr != nil && !InstrDominates(s.instr, ret) {
+						L.problems = append(L.problems, "the helper can return the record before a part is in place")
+					}
+				}
+			}
+		})
+		if !returnsIt && L.unknown == "" {
+			L.problems = append(L.problems, "the helper does not return the completely assembled record")
+		}
+		L.final = helperCall
+		for i := range L.slots {
+			L.slots[i].orig = L.slots[i].val
+			L.slots[i].val = ArgForParam(L.path, L.slots[i].val)
+			if L.slots[i].val == L.slots[i].orig {
+				if _, isConst := L.slots[i].val.(*ssa.Const); !isConst {
+					L.slots[i].foreign = true
+				}
+			}
+			L.slots[i].instr = helperCall
+		}
+	} else {
+		L.final = last
+		for i := range L.slots {
+			L.slots[i].orig = L.slots[i].val
+		}
+	}
+	return L
 }
 
 var ljhBinRe = regexp.MustCompile(`^\* The (first|second) (\d+)-byte word is the ([^.]*)\.`)
@@ -602,24 +782,43 @@ func c05R3(p *Prog, r *Report) {
 		}
 		r.Fn(FuncName(fn))
 		name := w.pkg + "." + w.typ
-		slots, capHint, final, problems := appendChain(fn)
-		for _, pr := range problems {
-			r.Bad("C05.R3", name+": record assembly", p.Pos(fn.Pos()), pr)
+		L := recordLayout(fn)
+		slots, capHint, final, problems := L.slots, L.sizeHint, L.final, L.problems
+		if L.unknown != "" {
+			r.Unk("C05.R3", name+": record assembly", p.Pos(fn.Pos()), L.unknown+": the record layout cannot be extracted from this form")
+			continue
 		}
-		if len(problems) == 0 {
-			r.OK("C05.R3", name+": record assembly", p.Pos(fn.Pos()), fmt.Sprintf("%d parts appended in one order", len(slots)))
+		if L.host != fn {
+			r.Fn(FuncName(L.host))
 		}
-		// the assembled buffer is what is written
+		// the assembled buffer is what is written, after every part is in place
 		written := false
 		if final != nil {
 			for _, ref := range *final.Referrers() {
 				if c, ok := ref.(*ssa.Call); ok && strings.HasSuffix(CalleeName(&c.Call), "asyncbufio.Writer).Write") {
 					written = true
+					if L.host == fn {
+						for _, s := range slots {
+							if !InstrDominates(s.instr, c) {
+								problems = append(problems, "a record part is put in place after (or not on every path before) the record is handed to the file writer")
+							}
+						}
+					}
 				}
 			}
 		}
+		for _, pr := range problems {
+			r.Bad("C05.R3", name+": record assembly", p.Pos(fn.Pos()), pr)
+		}
+		if len(problems) == 0 {
+			r.OK("C05.R3", name+": record assembly", p.Pos(fn.Pos()), fmt.Sprintf("%d parts put in place in one order in %s", len(slots), FuncName(L.host)))
+		}
 		r.Check(written, "C05.R3", name+": the assembled record is what is written", p.Pos(fn.Pos()), "one Write of the complete buffer", "the buffer handed to the file writer is not the completely assembled record")
 		pc := NewPolyCtx(fn)
+		hpc := pc
+		if L.host != fn {
+			hpc = NewPolyCtx(L.host)
+		}
 		// variable part last and only once; fixed size == capacity hint constant
 		fixed := 0
 		nvar := 0
@@ -635,9 +834,17 @@ func c05R3(p *Prog, r *Report) {
 		}
 		if nvar == 1 {
 			last := slots[len(slots)-1]
-			wantCap := polyConst(int64(fixed)).Add(pc.lenOf(last.val).Mul(polyConst(int64(last.elem))))
-			r.Check(capHint != nil && pc.Of(capHint).Equal(wantCap), "C05.R3", name+": declared record size equals the parts written", p.Pos(fn.Pos()), wantCap.String(),
-				fmt.Sprintf("the record buffer is sized %s but the parts add up to %s", pc.Of(capHint), wantCap))
+			wantCap := polyConst(int64(fixed)).Add(hpc.lenOf(last.orig).Mul(polyConst(int64(last.elem))))
+			r.Check(capHint != nil && hpc.Of(capHint).Equal(wantCap), "C05.R3", name+": declared record size equals the parts written", p.Pos(fn.Pos()), wantCap.String(),
+				fmt.Sprintf("the record buffer is sized %s but the parts add up to %s", hpc.Of(capHint), wantCap))
+		}
+		foreign := false
+		for _, s := range slots {
+			foreign = foreign || s.foreign
+		}
+		if foreign {
+			r.Unk("C05.R3", name+": record parts", p.Pos(fn.Pos()), "a record part is computed inside the helper "+FuncName(L.host)+": its meaning cannot be compared with the writer method's parameters")
+			continue
 		}
 		// against the document
 		if w.doc != nil {
@@ -728,10 +935,34 @@ func c05R3(p *Prog, r *Report) {
 	})
 }
 
+// c05RecSubst: parameters of a helper being described, in terms of the caller's values.
+var c05RecSubst = map[ssa.Value]string{}
+
+// singleReturn: the one value returned by a function with exactly one return statement and one result.
+func singleReturn(f *ssa.Function) ssa.Value {
+	var out ssa.Value
+	n := 0
+	Instrs(f, func(in ssa.Instruction) {
+		if ret, ok := in.(*ssa.Return); ok {
+			n++
+			if len(ret.Results) == 1 {
+				out = ret.Results[0]
+			}
+		}
+	})
+	if n != 1 {
+		return nil
+	}
+	return out
+}
+
 // c05RecDescribe renders an argument in terms of the loop's current record ("rec").
 func c05RecDescribe(v ssa.Value, l *RangeLoop, depth int) string {
 	if depth > 7 {
 		return "?"
+	}
+	if d, ok := c05RecSubst[v]; ok {
+		return d
 	}
 	if l.IsElem(v) {
 		if u, ok := v.(*ssa.UnOp); ok {
@@ -770,6 +1001,20 @@ func c05RecDescribe(v ssa.Value, l *RangeLoop, depth int) string {
 			return "UnixNano(" + c05RecDescribe(x.Call.Args[0], l, depth+1) + ")"
 		}
 		if c := x.Call.StaticCallee(); c != nil && len(x.Call.Args) == 1 {
+			// a module helper that returns a fresh element-wise copy of its argument: described as
+			// the copy itself, in terms of the argument
+			if isModuleFn(c) && len(c.Params) == 1 {
+				if rv := singleReturn(c); rv != nil {
+					if mk, ok := rv.(*ssa.MakeSlice); ok {
+						c05RecSubst[c.Params[0]] = c05RecDescribe(x.Call.Args[0], l, depth+1)
+						d := c05RecDescribe(mk, l, depth+1)
+						delete(c05RecSubst, c.Params[0])
+						if d != mk.Name() {
+							return d
+						}
+					}
+				}
+			}
 			return c.Name() + "(" + c05RecDescribe(x.Call.Args[0], l, depth+1) + ")"
 		}
 	case *ssa.MakeSlice:
@@ -864,13 +1109,15 @@ func c05R6(p *Prog, r *Report) {
 		r.Unk("C05.R6", "PublishData", "-", "anchor not found")
 		return
 	}
-	loops := RangeLoops(pd)
 	type w struct {
 		create, header *ssa.Call
 		records        []*ssa.Call
+		path           []ssa.Instruction // call path from PublishData to the function holding the calls
 	}
 	ws := map[string]*w{}
-	Instrs(pd, func(in ssa.Instruction) {
+	// the three calls of a writer may sit in PublishData itself or in a helper it calls
+	InstrsDeep(pd, 2, func(di DeepInstr) {
+		in := di.In
 		call, ok := in.(*ssa.Call)
 		if !ok || call.Call.StaticCallee() == nil || call.Call.StaticCallee().Signature.Recv() == nil {
 			return
@@ -882,7 +1129,7 @@ func c05R6(p *Prog, r *Report) {
 		}
 		e := ws[owner]
 		if e == nil {
-			e = &w{}
+			e = &w{path: di.Path}
 			ws[owner] = e
 		}
 		switch c.Name() {
@@ -901,6 +1148,12 @@ func c05R6(p *Prog, r *Report) {
 			continue
 		}
 		rec := e.records[0]
+		if e.create.Parent() != e.header.Parent() || e.create.Parent() != rec.Parent() {
+			r.Unk("C05.R6", owner+": create, header and record writes present in PublishData", p.Pos(pd.Pos()), "the three calls are spread over different functions: their order is not decided for this form")
+			continue
+		}
+		host := rec.Parent()
+		loops := RangeLoops(host)
 		// create before header; header only on the success path of create
 		okOrder := InstrDominates(e.create, e.header)
 		errChecked := false
@@ -921,7 +1174,7 @@ func c05R6(p *Prog, r *Report) {
 		r.Check(flagged, "C05.R6", owner+": header written once (guarded by the header-written flag)", p.InstrPos(e.header), "guarded", "the header write is not guarded by the writer's header-written flag: a second block rewrites the header in the middle of the file")
 		// every path to the record loop passes the header block or the flag says it was written: the if-region precedes the loop
 		l := LoopContaining(loops, rec)
-		okLoop := l != nil && l.Over == ssa.Value(pd.Params[1]) && l.EveryIteration(rec.Block())
+		okLoop := l != nil && ArgForParam(e.path, l.Over) == ssa.Value(pd.Params[1]) && l.EveryIteration(rec.Block())
 		r.Check(okLoop, "C05.R6", owner+": every published record is written, in slice order", p.InstrPos(rec), "range over the records parameter, one WriteRecord per element", "WriteRecord is not executed for every element of the published slice in order")
 		if l != nil {
 			r.Check(!BlockReaches(l.Header, e.header.Block()), "C05.R6", owner+": header precedes the records", p.InstrPos(e.header), "the header block cannot be reached from the record loop", "the header can be written after records")
